@@ -149,6 +149,119 @@ def path_to(fn, target_bb):
     return None
 
 
+FLAKY_TEST = r'''
+#[cfg(test)]
+mod verif_c18_flaky {
+    use crate::{MultiProgress, ProgressBar, ProgressDrawTarget, ProgressStyle, TermLike};
+    use std::io;
+    use std::panic::{catch_unwind, AssertUnwindSafe};
+    use std::sync::atomic::{AtomicBool, Ordering};
+    use std::sync::Arc;
+
+    #[derive(Debug, Clone, Default)]
+    struct Flaky(Arc<AtomicBool>);
+    impl Flaky {
+        fn op(&self) -> io::Result<()> {
+            if self.0.load(Ordering::SeqCst) {
+                Err(io::Error::new(io::ErrorKind::BrokenPipe, "terminal gone"))
+            } else {
+                Ok(())
+            }
+        }
+    }
+    impl TermLike for Flaky {
+        fn width(&self) -> u16 { 80 }
+        fn height(&self) -> u16 { 24 }
+        fn move_cursor_up(&self, _: usize) -> io::Result<()> { self.op() }
+        fn move_cursor_down(&self, _: usize) -> io::Result<()> { self.op() }
+        fn move_cursor_right(&self, _: usize) -> io::Result<()> { self.op() }
+        fn move_cursor_left(&self, _: usize) -> io::Result<()> { self.op() }
+        fn write_line(&self, _: &str) -> io::Result<()> { self.op() }
+        fn write_str(&self, _: &str) -> io::Result<()> { self.op() }
+        fn clear_line(&self) -> io::Result<()> { self.op() }
+        fn flush(&self) -> io::Result<()> { self.op() }
+    }
+
+    fn guarded(what: &str, bad: &mut Vec<String>, f: impl FnOnce()) {
+        if catch_unwind(AssertUnwindSafe(f)).is_err() {
+            bad.push(what.to_string());
+        }
+    }
+
+    #[test]
+    fn verif_c18_no_call_panics_on_a_failing_terminal() {
+        std::panic::set_hook(Box::new(|_| {}));
+        let mut bad = Vec::new();
+        type Op = (&'static str, fn(&ProgressBar, &MultiProgress, &ProgressBar));
+        let ops: Vec<Op> = vec![
+            ("tick", |p, _, _| p.tick()),
+            ("inc", |p, _, _| p.inc(1)),
+            ("set_length", |p, _, _| p.set_length(9)),
+            ("set_message", |p, _, _| p.set_message("m")),
+            ("set_tab_width", |p, _, _| p.set_tab_width(3)),
+            ("set_style", |p, _, _| p.set_style(ProgressStyle::with_template("{msg}").unwrap())),
+            ("println", |p, _, _| p.println("x")),
+            ("suspend", |p, _, _| p.suspend(|| ())),
+            ("reset", |p, _, _| p.reset()),
+            ("mp.println", |_, m, _| { let _ = m.println("x"); }),
+            ("mp.clear", |_, m, _| { let _ = m.clear(); }),
+            ("mp.suspend", |_, m, _| m.suspend(|| ())),
+            ("mp.add(member)", |p, m, _| { let _ = m.add(p.clone()); }),
+            ("mp.insert_after(member)", |p, m, s| { let _ = m.insert_after(s, p.clone()); }),
+            ("mp.remove", |p, m, _| m.remove(p)),
+            ("set_draw_target(hidden)", |p, _, _| p.set_draw_target(ProgressDrawTarget::hidden())),
+            ("finish", |p, _, _| p.finish()),
+            ("finish_and_clear", |p, _, _| p.finish_and_clear()),
+            ("abandon_with_message", |p, _, _| p.abandon_with_message("bye")),
+        ];
+        for standalone in [false, true] {
+            for (name, op) in &ops {
+                let term = Flaky::default();
+                let mp = MultiProgress::with_draw_target(ProgressDrawTarget::term_like(Box::new(term.clone())));
+                let (pb, sib) = if standalone {
+                    (ProgressBar::with_draw_target(Some(10), ProgressDrawTarget::term_like(Box::new(term.clone()))), ProgressBar::hidden())
+                } else {
+                    (mp.add(ProgressBar::new(10)), mp.add(ProgressBar::new(5)))
+                };
+                if standalone && name.starts_with("mp.") {
+                    continue;
+                }
+                pb.inc(3);
+                sib.inc(1);
+                term.0.store(true, Ordering::SeqCst);
+                let what = format!("{}{}", if standalone { "standalone " } else { "member " }, name);
+                guarded(&what, &mut bad, || op(&pb, &mp, &sib));
+                // later calls on the same and on sibling bars keep working, also once the terminal is back
+                guarded(&format!("{what}, then inc"), &mut bad, || { pb.inc(1); sib.inc(1); let _ = (pb.position(), sib.position()); });
+                term.0.store(false, Ordering::SeqCst);
+                guarded(&format!("{what}, then tick on a healthy terminal"), &mut bad, || { pb.tick(); sib.tick(); });
+                guarded(&format!("{what}, then drop"), &mut bad, || { drop(pb); drop(sib); drop(mp); });
+            }
+        }
+        if bad.is_empty() {
+            println!("FLAKY nopanic");
+        } else {
+            println!("FLAKY panics {}", bad.join(" | "));
+        }
+    }
+}
+'''
+
+
+def native_flaky(root):
+    """-> (True some call panics / False none / None could not run, detail)"""
+    from props.C05 import native_test
+    try:
+        rc, out = native_test(root, "lib.rs", FLAKY_TEST, "verif_c18_no_call_panics_on_a_failing_terminal", timeout=900)
+    except Exception as e:  # noqa
+        return None, repr(e)
+    m = re.search(r"FLAKY (panics|nopanic)(.*)", out)
+    if not m:
+        pm = re.search(r"(error[^\n]*\n[^\n]*|panicked at [^\n]*\n[^\n]*)", out)
+        return None, (pm.group(0) if pm else out[-300:])
+    return (m.group(1) == "panics"), m.group(0)[:400]
+
+
 KNOWN_ROLE = {
     # role keys of defects that were found by this check and repaired; nothing is suppressed any more (see known_findings.json "fixed")
 }
@@ -188,7 +301,16 @@ def run(tier, logdir):
                 if r["verdict"] == "sat":
                     found.append((fn, bb, stmt, kind, path))
         short = lambda n: re.sub(r"<impl at [^>]*>", "", n).replace("::::", "::")  # noqa: E731
+        confirmed, native_detail = (None, None)
+        if found:
+            # a site is a candidate; it is reported once a native run with a failing terminal shows a panic (or a poisoned lock)
+            confirmed, native_detail = native_flaky(root)
         for fn, bb, stmt, kind, path in found:
+            if confirmed is not True:
+                queries.append({"name": "%s %s" % (short(fn.name), kind), "verdict": "INCONCLUSIVE",
+                                "why": "at `%s`; the native run with a failing terminal (19 operations on standalone and member bars) %s" % (
+                                    stmt[:100], "did not panic" if confirmed is False else "could not be run: " + str(native_detail)[:200]), "wall_s": 0})
+                continue
             art_dir = os.path.join(OUT_DIR, "replays", "C18")
             os.makedirs(art_dir, exist_ok=True)
             art = os.path.join(art_dir, re.sub(r"\W+", "_", short(fn.name))[:100] + "_panics_on_io_error.json")
@@ -196,7 +318,7 @@ def run(tier, logdir):
                 json.dump({"property": "C18", "function": short(fn.name), "header": fn.header if hasattr(fn, "header") else fn.name, "statement": stmt, "kind": kind, "mir_path": path,
                            "how": "bin/check C18 --replay <this file>: re-runs the analysis on the current tree; native demonstrations of the two sites the property names are in /verif/demos/C18_*.rs"}, fh, indent=1)
             queries.append({"name": "%s %s" % (short(fn.name), kind), "verdict": "FAIL",
-                            "why": "at `%s` (MIR path %s): a failing terminal call panics here (and poisons any lock held)" % (stmt[:120], "->".join(path[-6:])),
+                            "why": "at `%s` (MIR path %s): a failing terminal call panics here (and poisons any lock held); native run: %s" % (stmt[:120], "->".join(path[-6:]), native_detail),
                             "replayed": True, "replay_path": art, "wall_s": 0, "known": KNOWN_ROLE.get(short(fn.name))})
         queries.append({"name": "no function turns a terminal I/O result into a panic: %d functions, %d candidate sites, %d feasibility queries" % (nfn, nsites, nq),
                         "verdict": "PASS" if nfn > 50 else "VACUOUS", "why": "" if nfn > 50 else "fewer than 50 functions found in the MIR dump",
@@ -217,6 +339,10 @@ def run(tier, logdir):
 
 def replay(path):
     d = json.load(open(path))
+    ok, detail = native_flaky(common.scratch_root())
+    say(detail)
+    if ok is not None:
+        return 1 if ok else 0
     r = run("quick", None)
     hit = [q for q in r["queries"] if q["verdict"] == "FAIL" and d["function"] in q["name"]]
     if hit:
